@@ -54,11 +54,11 @@ var c19Fields = []byteField{
 }
 
 type c19Case struct {
-	args    []string
-	stdin   []byte
-	classes map[int]string // fault class -> why
-	parse12 bool           // unparsable quote: 1 or 2
-	desc    []string
+	args         []string
+	stdin        []byte
+	classes      map[int]string // fault class -> why
+	parse12      bool           // unparsable quote: 1 or 2
+	desc         []string
 	overrideBoth bool
 }
 
